@@ -133,6 +133,37 @@ def extract_body(prog: Program, qualname: str) -> Body:
         key = ast.parse(unparse(other).replace(rec2, record) if rec2 != record else unparse(other), mode="eval").body
         stmts = [st for st in lp.body if st is not bind[0]]
         return Body(f, g, lp, org_idx, record, dt_var, count_var, None, gather, ctor, "B", k_var, lst, key, stmts, bind[0])
+    # ---- form C: the group's (original index, record) pairs are collected first, the loop runs over them
+    for lp in loops:
+        it = lp.iter
+        k_var = None
+        tgt = lp.target
+        if isinstance(it, ast.Call) and call_name(it) == "enumerate" and len(it.args) == 1 and isinstance(it.args[0], ast.Name) \
+                and isinstance(tgt, ast.Tuple) and len(tgt.elts) == 2 and isinstance(tgt.elts[1], ast.Tuple) and len(tgt.elts[1].elts) == 2:
+            lst, k_var, pair = it.args[0].id, unparse(tgt.elts[0]), tgt.elts[1]
+        elif isinstance(it, ast.Name) and isinstance(tgt, ast.Tuple) and len(tgt.elts) == 2:
+            lst, pair = it.id, tgt
+        else:
+            continue
+        if not all(isinstance(e, ast.Name) for e in pair.elts):
+            continue
+        org_idx, record = pair.elts[0].id, pair.elts[1].id
+        d = [st for st in g.body if isinstance(st, ast.Assign) and len(st.targets) == 1 and isinstance(st.targets[0], ast.Name)
+             and st.targets[0].id == lst and st.lineno < lp.lineno]
+        if len(d) != 1 or not isinstance(d[0].value, ast.ListComp) or len(d[0].value.generators) != 1:
+            continue
+        gen = d[0].value.generators[0]
+        if unparse(gen.iter) != "enumerate(records)" or not isinstance(gen.target, ast.Tuple) or len(gen.target.elts) != 2 or len(gen.ifs) != 1:
+            continue
+        o2, rec2 = unparse(gen.target.elts[0]), unparse(gen.target.elts[1])
+        elt = d[0].value.elt
+        if not (isinstance(elt, ast.Tuple) and [unparse(e) for e in elt.elts] == [o2, rec2]):
+            continue
+        op, other = _dt_compare(gen.ifs[0], dt_var)
+        if op is not ast.Eq:
+            continue
+        key = ast.parse(unparse(other).replace(rec2, record) if rec2 != record else unparse(other), mode="eval").body
+        return Body(f, g, lp, org_idx, record, dt_var, count_var, None, gather, ctor, "B", k_var, lst, key, list(lp.body), None)
     raise AnalysisError(f"{qualname}: expected one per-record loop inside the group loop")
 
 
